@@ -262,6 +262,9 @@ def stat_roles(cad):
     res = None
     for f_ in fr:
         rts = ret_terms(Terms(inl(cad, f_)), [0])
+        if len(rts) == 1 and term_callee_is(list(rts)[0], 'as core::convert::Into>::into', 'as core::convert::From>::from') and \
+                peel(list(rts)[0][2][0]) == ('param', 1):
+            continue            # a plain delegation to the conversion (judged there)
         if len(rts) != 1 or list(rts)[0][0] != 'adt':
             return None
         out = {}
